@@ -263,6 +263,12 @@ class Layout:
         if isinstance(node, ast.IfExp):
             # handled by the statement-level forker when it is the whole right-hand side; here: join
             raise _NeedFork(node)
+        if isinstance(node, ast.BoolOp) and len(node.values) == 2:
+            # `a or b` is `a if a else b`, `a and b` is `b if a else a`: forked like a conditional expression
+            a, b = node.values
+            fake = ast.IfExp(test=a, body=a, orelse=b) if isinstance(node.op, ast.Or) else ast.IfExp(test=a, body=b, orelse=a)
+            fake._boolop = node
+            raise _NeedFork(fake)
         if isinstance(node, ast.Call):
             return self.call(st, node)
         if isinstance(node, ast.Subscript):
@@ -589,7 +595,7 @@ class Layout:
             out = []
             for s2, val in self.test(st, nf.node.test):
                 repl = nf.node.body if val else nf.node.orelse
-                stmt2 = _replace(stmt, nf.node, repl)
+                stmt2 = _replace(stmt, getattr(nf.node, "_boolop", nf.node), repl)
                 out.extend(self.step(s2, stmt2, on_expr))
             return out
 
